@@ -27,7 +27,8 @@ ASSUMPTIONS = ['a name defined only by two inner levels has no documented preced
                'at most one instance of a unique middleware type per list (O5)']
 REQUIRED_REACH = ['depth:2', 'depth:3', 'shadow:outer-over-app', 'shadow:outer-over-route', 'optout:slashes', 'optout:none',
                   'rebind:requested', 'redirect-under-prefix', 'error-through-outer-handler', 'reached-embedded-route',
-                  'factory:inner', 'factory:outer-fills-in', 'dup-unique-across-levels', 'both-rejected', 'prefix:root-slash', 'subclassed-middleware-type']
+                  'factory:inner', 'factory:outer-fills-in', 'dup-unique-across-levels', 'both-rejected', 'prefix:root-slash', 'subclassed-middleware-type', 'optional-argument-from-enclosing-level',
+                  'error-handler-consumes-resource']
 NSHARDS = 16
 MODES = ['redirect', 'rewrite', 'strict']
 PATTERNS = ['/a', '/a/<x>', '/<x>', '/b/', '/c/<n:int>/', '/<p*>', '/a/b', '/d/<x>/']
@@ -43,6 +44,7 @@ class Gen(object):
         self.n_app = self.n_route = self.n_mw = 0
         self.types = []
         self.root_resources = []
+        self.routes_made = []
 
     def mw(self, level_label, own_resources):
         rng = self.rng
@@ -113,14 +115,37 @@ class Gen(object):
         avail = sorted(node['resources']) + sorted(res) + [p for m in node['mws'] + mws for p in m['provides']]
         wants = [w for w in avail if rng.chance(0.5)][:3]
         render = rng.pick([None, 'callable', 'arg', 'arg'])
-        return {'kind': 'route', 'rid': rid, 'pattern': rng.pick(PATTERNS), 'methods': rng.pick([None, None, ['GET'], ['POST'], ['GET', 'POST']]),
+        self.routes_made.append(rid)
+        return {'kind': 'route', 'rid': rid, 'opt_wants': [], 'pattern': rng.pick(PATTERNS), 'methods': rng.pick([None, None, ['GET'], ['POST'], ['GET', 'POST']]),
                 'beh': rng.pick(BEHS), 'render': render, 'mws': mws, 'resources': res, 'wants': wants,
                 'slash': rng.pick(MODES), 'inherit': rng.chance(0.75)}
+
+
+def all_resource_names(node):
+    out = set(node['resources'])
+    for c in node['children']:
+        if c['kind'] == 'app':
+            out |= all_resource_names(c['node'])
+        else:
+            out |= set(c['resources'])
+    return out
+
+
+def assign_optional_wants(rng, node, names):
+    """defaulted endpoint parameters named after resources defined anywhere in the tree (often only by an enclosing
+    level) or by nobody: injected when any level on the way offers the name, the default otherwise"""
+    for c in node['children']:
+        if c['kind'] == 'app':
+            assign_optional_wants(rng, c['node'], names)
+        elif rng.chance(0.5):
+            pool = [n for n in sorted(names) if n not in c['wants']] + ['nobody_has_this']
+            c['opt_wants'] = sorted(set(rng.pick(pool) for _ in range(rng.randint(1, 2))))
 
 
 def gen_tree(rng):
     g = Gen(rng)
     tree = g.node(1, rng.pick([2, 2, 3, 3]), is_root=True)
+    assign_optional_wants(rng, tree, all_resource_names(tree))
     if rng.chance(0.06):
         plant_conflict(rng, tree)
     return tree
@@ -200,10 +225,15 @@ def make_endpoint(env, r):
     from ..tables import Boom
     from ..models import urlmatch as um
     names = [e[1] for e in um.parse(r['pattern'])[0] if e[0] == 'bind'] + list(r['wants'])
+    opt = [n for n in (r.get('opt_wants') or []) if n not in names]
     rid, beh = r['rid'], r['beh']
     status, breaking, kind = md.BEHAVIOURS[beh]
     has_render = r['render'] is not None
-    src = ('def ep_%s(%s):\n    return _run(dict(%s))\n' % (rid, ', '.join(names), ', '.join('%s=%s' % (n, n) for n in names)))
+    src = ('def ep_%s(%s):\n    return _run(dict(%s))\n'
+           % (rid, ', '.join(names + ['%s=_DEFAULT' % n for n in opt]), ', '.join('%s=%s' % (n, n) for n in names + opt)))
+    _DEFAULT = spies.Marker(['default'])
+    env['by_id'][id(_DEFAULT)] = 'default'
+    env['keep'].append(_DEFAULT)
 
     def _run(params):
         tr = probe.current_trace()
@@ -220,7 +250,7 @@ def make_endpoint(env, r):
         if kind == 'raise':
             raise exc
         return exc
-    ns = {'_run': _run}
+    ns = {'_run': _run, '_DEFAULT': _DEFAULT}
     exec(src, ns)
     return ns['ep_' + rid]
 
@@ -245,17 +275,33 @@ def explicit_render(rid):
     return render
 
 
-def make_handler(label):
+def make_handler(label, env=None, res_name=None):
+    """an error handler stamping its label - and, when res_name is given, which object it was handed for that
+    resource name (its render_error declares the name)"""
     from clastic.errors import ErrorHandler
     if not label:
         return None
 
-    class Stamped(ErrorHandler):
-        def render_error(self, request, _error):
-            r = ErrorHandler.render_error(self, request, _error)
-            r.headers['X-EH'] = label
-            return r
-    return Stamped()
+    def _render(self, request, _error, value=None):
+        r = ErrorHandler.render_error(self, request, _error)
+        r.headers['X-EH'] = label
+        if res_name:
+            r.headers['X-EH-Res'] = sym(value, env)
+        return r
+    if res_name:
+        ns = {'_render': _render}
+        exec('def render_error(self, request, _error, %s):\n    return _render(self, request, _error, %s)\n' % (res_name, res_name), ns)
+        fn = ns['render_error']
+    else:
+        fn = lambda self, request, _error: _render(self, request, _error)
+    return type('Stamped', (ErrorHandler,), {'render_error': fn})()
+
+
+def handler_resource(node):
+    """the resource name the root's error handler consumes (a name the root defines, preferably a shared one)"""
+    names = sorted(node['resources'])
+    shared = [n for n in names if n.startswith('shared')]
+    return (shared or names or [None])[0]
 
 
 def new_env():
@@ -278,7 +324,8 @@ def build_nested(env, node):
     app = Application([], resources=res_objects(env, node['resources'], node['label']),
                       middlewares=[make_mw_instance(env, m) for m in node['mws']],
                       render_factory=make_factory(node['label']) if node['factory'] else None,
-                      error_handler=make_handler(node['label'] if node['eh'] else None), slash_mode=node['slash'])
+                      error_handler=make_handler(node['label'] if node['eh'] else None, env, handler_resource(node)),
+                      slash_mode=node['slash'])
     for c in node['children']:
         if c['kind'] == 'route':
             kw = {}
@@ -346,7 +393,8 @@ def flatten(root):
             if len(levels) == 1:
                 pass
             out.append({'rid': c['rid'], 'pattern': prefix + c['pattern'], 'methods': c['methods'], 'beh': c['beh'],
-                        'wants': c['wants'], 'render': render, 'has_render': c['render'] is not None,
+                        'wants': c['wants'], 'opt_wants': c.get('opt_wants') or [],
+                        'visible_resources': sorted(set(inner_res) | set(levels[0]['resources']) | set(c['resources'])), 'render': render, 'has_render': c['render'] is not None,
                         'mws': [m for m in mws if not any(m is r or m['label'] == r['label'] for r in levels[0]['mws'])],
                         'resources': inner_res if len(levels) > 1 else dict(c['resources']), 'mode': mode,
                         'orig_pattern': c['pattern'], 'depth': len(levels)})
@@ -358,7 +406,8 @@ def build_flat(env, root, flat):
     from clastic import Application, Route
     app = Application([], resources=res_objects(env, root['resources'], root['label']),
                       middlewares=[make_mw_instance(env, m) for m in root['mws']],
-                      error_handler=make_handler(root['label'] if root['eh'] else None), slash_mode=root['slash'])
+                      error_handler=make_handler(root['label'] if root['eh'] else None, env, handler_resource(root)),
+                      slash_mode=root['slash'])
     for f in flat:
         kw = {}
         if f['methods']:
@@ -370,7 +419,7 @@ def build_flat(env, root, flat):
         else:
             render = make_factory(f['render'][1])(f['render'][2])
         spec = {'rid': f['rid'], 'pattern': f['orig_pattern'], 'beh': f['beh'], 'wants': f['wants'],
-                'render': 'x' if f['has_render'] else None}
+                'opt_wants': f['opt_wants'], 'render': 'x' if f['has_render'] else None}
         ep = make_endpoint(env, spec)
         # resource objects: same symbolic owner labels as in the nested construction
         res = {}
@@ -389,7 +438,7 @@ def observe(app, method, path):
     tr = spies.new_trace()
     ex = probe.request(app, method, path, token='t', trace=tr)
     return {'status': ex.status, 'body': ex.body.decode('utf8', 'replace')[:600] if ex.status != 500 else '<500>',
-            'location': ex.header('Location'), 'eh': ex.header('X-EH'), 'events': tr['events'],
+            'location': ex.header('Location'), 'eh': ex.header('X-EH'), 'eh_res': ex.header('X-EH-Res'), 'events': tr['events'],
             'exc': probe.safe_repr(ex.exc) if ex.exc is not None else None,
             'ctype': (ex.header('Content-Type') or '').split(';')[0]}
 
@@ -405,6 +454,16 @@ def absolute_checks(tree, flat, a):
             for k, v in e[2].items():
                 if isinstance(v, str) and v.startswith('resource:') and k in tree['resources'] and not v.endswith('@' + root):
                     return 'resource-precedence', '%s of %s received %s although the serving application defines %s' % (k, e[1], v, k)
+    for e in a['events']:
+        if e[0] == 'ep' and e[1] in byrid:
+            fr = byrid[e[1]]
+            for nm in fr['opt_wants']:
+                got = e[2].get(nm)
+                offered = nm in fr['visible_resources']
+                if offered and got == 'default':
+                    return 'optional-argument-not-injected', '%s of %s kept its default although a level on the way defines it' % (nm, e[1])
+                if not offered and got != 'default':
+                    return 'optional-argument-injected-from-nowhere', '%s of %s received %r although no level defines it' % (nm, e[1], got)
     eps = [e[1] for e in a['events'] if e[0] == 'ep']
     if eps:
         f = byrid.get(eps[0])
@@ -419,6 +478,8 @@ def absolute_checks(tree, flat, a):
                 return 'renderer', 'body %r, expected it to start with %r' % (a['body'][:80], lead)
     if a['status'] and a['status'] >= 400 and a['status'] != 500 and tree['eh'] and a['eh'] != root:
         return 'error-handler', 'error response stamped by %r, the serving application is %s' % (a['eh'], root)
+    if a.get('eh_res') and not a['eh_res'].endswith('@' + root):
+        return 'error-handler-resource', 'the serving application\'s error handler was handed %s for a resource the serving application defines' % a['eh_res']
     return None
 
 
@@ -483,6 +544,12 @@ def check_tree(sh, tree, rng, n_requests, record=True):
             sh.hit('redirect-under-prefix')
         if a['eh'] and a['status'] >= 400 and deep:
             sh.hit('error-through-outer-handler')
+        if a.get('eh_res') and deep:
+            sh.hit('error-handler-consumes-resource')
+        for e in a['events']:
+            if e[0] == 'ep' and any(v != 'default' and str(v).startswith('resource:') for k, v in e[2].items()
+                                    if k in (dict((f['rid'], f) for f in flat).get(e[1], {}).get('opt_wants') or [])):
+                sh.hit('optional-argument-from-enclosing-level')
         if record:
             sh.case({'tree': tree, 'method': method, 'path': path}, nontrivial=deep,
                     klass='depth%d:%s' % (d, 'embedded' if deep else 'top'),
